@@ -250,6 +250,56 @@ def _(vm, a, ci):
     raise Unmodelled(f'from_utf8 of {v!r}'[:100])
 
 
+@path_rx(r'ArrayString(?:::<[^>]*>)?::(?:new|new_const|push|try_push|push_str|try_push_str|as_str|len|is_empty|clear|capacity|is_full|remaining_capacity|pop|truncate|from)$')
+def _(vm, a, ci):
+    """arrayvec::ArrayString<CAP>: a string with a byte capacity; push / push_str panic (unwrap of CapacityError) when it does not fit"""
+    m = ci.method
+    mcap = re.search(r'ArrayString(?:::)?<(\d+)', (ci.callee or '') + ' ' + (ci.selfty or ''))
+    if m in ('new', 'new_const'):
+        if not mcap: raise Unmodelled('ArrayString capacity not visible in ' + str(ci.callee))
+        return Adt('ArrayString', 0, [const_str(vm, ''), int(mcap.group(1))])
+    r = a[0]
+    v = r
+    while isinstance(v, Ref): v = vm.ref_get(v)
+    if not (isinstance(v, Adt) and v.ty == 'ArrayString'): raise Unmodelled(f'ArrayString? {v!r}'[:100])
+    cur, cap = v.fields[0], v.fields[1]
+    if m == 'as_str': return cur
+    if m == 'len': return str_len(vm, cur)
+    if m == 'is_empty': return str_is_empty(vm, cur)
+    if m == 'capacity': return cap
+    if m == 'remaining_capacity': return cap - str_len(vm, cur)
+    if m == 'is_full': return str_len(vm, cur) >= cap
+    if m == 'clear': v.fields[0] = const_str(vm, ''); return UNIT
+    if m in ('push', 'try_push', 'push_str', 'try_push_str'):
+        add_ = char_string(vm, a[1]) if m in ('push', 'try_push') else S(vm, a[1])
+        new = str_concat(vm, cur, add_)
+        n = str_len(vm, new)
+        if not isinstance(n, int): raise Unmodelled('ArrayString push with a symbolic byte length')
+        if n > cap:
+            if m.startswith('try_'): return err(Adt('CapacityError', 0, [a[1]]))
+            raise PanicEdge('panic', f'ArrayString::{m}: called `Result::unwrap()` on an `Err` value: CapacityError (insufficient capacity: {n} bytes into {cap})')
+        v.fields[0] = new
+        return ok(UNIT) if m.startswith('try_') else UNIT
+    if m == 'pop':
+        b = _bounded(vm, cur); cs = b.chars()
+        if not cs: return NONE()
+        v.fields[0] = _view(b, 0, len(cs) - 1); return some(cs[-1])
+    if m == 'truncate':
+        b = _bounded(vm, cur)
+        if a[1] < b.nbytes():
+            if not b.is_boundary(a[1]): raise PanicEdge('panic', 'ArrayString::truncate: not a char boundary')
+            v.fields[0] = b.sub(0, a[1])
+        return UNIT
+    raise Unmodelled('ArrayString::' + m)
+
+
+@trait(('ArrayString', 'Deref', 'deref'), ('ArrayString', 'AsRef', 'as_ref'), ('ArrayString', 'Borrow', 'borrow'))
+def _(vm, a, ci):
+    v = a[0]
+    while isinstance(v, Ref): v = vm.ref_get(v)
+    return v.fields[0]
+
+
 @path('String::truncate')
 def _(vm, a, ci):
     cur = S(vm, a[0]); n = a[1]
